@@ -33,7 +33,7 @@ def gen(ctx):
     A, G, Z = [], [], []
     muts = [('src', 'append'), ('cpy', 'append'), ('src', 'assign'), ('cpy', 'truncate'), ('src', 'meta'),
             ('cpy', 'meta'), ('src', 'truncate'), ('src', 'delete'), ('cpy', 'delete')]
-    for nt in NUMTYPES:
+    for nt in NUMTYPES * (1 if ctx.quick else 3):
         for sh in [(0,), (5,), (0, 2), (4, 3), (3, 1, 2)]:
             if ctx.quick and r.random() < 0.5:
                 continue
@@ -44,7 +44,7 @@ def gen(ctx):
                               chunklen=r.choice([None, 1, 2, max(sh[0], 1), sh[0] + 1]),
                               metadata=r.choice([None, {'a': {'b': [1, 2.5, None]}, 'ü': 'x'}]),
                               mutations=r.sample(muts, 3)))
-    for _ in range(25 if ctx.quick else 250):
+    for _ in range(25 if ctx.quick else 600):
         nt = r.choice(NUMTYPES); bo = r.choice(['little', 'big']); atom = r.choice(p04.ATOMS)
         sublens = r.choice([None, [0], [2, 0, 1], [1], [0, 0], [3, 2, 1, 0, 1, 2, 3]])
         dt = r.choice([None, None, r.choice(NUMTYPES)])
